@@ -755,12 +755,12 @@ func c29R2R3(c *Ctx, a *c29Anchors, R2, R3 string) {
 		reach := g.Reach([]int{body}, func(n int) bool { return n == head }, nil)
 		early := ""
 		switch {
+		case reach[done]:
+			early = "break/goto"
 		case reach[g.Exit]:
 			early = "return"
 		case reach[g.Panic]:
 			early = "panic"
-		case reach[done]:
-			early = "break/goto"
 		}
 		r.Check(early == "", R3, "writeRTP|fanout|no-early-exit", c.P.Pos(loop.Pos()), "the body always returns to the loop head", "the loop body can leave the loop by "+early+": later bindings do not receive the packet")
 	}
